@@ -339,3 +339,31 @@ Example stale_example :
   (* ... and when both exist at export, the one that comes later in key order replaces the other: votes are not merged *)
   List.length (atts (reimport [] s')) = 1%nat.
 Proof. vm_compute. repeat split; reflexivity. Qed.
+
+(** * 5. Exempted fields are not read where effects are produced *)
+Lemma effect_reads_ok_true : effect_reads_ok = true.
+Proof. vm_compute. reflexivity. Qed.
+
+Lemma tally_reads_only_hashed_lemma : forall ct, In ct G.claim_types ->
+  incl (G.tally_fields ct) (hashed_fields ct ++ G.key_fields ct) /\
+  ~ In "EventNonce"%string (G.submit_fields_nogate ct) /\
+  (forall f, In f (G.tally_fields ct) -> ~ In f excluded).
+Proof.
+  intros ct H. pose proof effect_reads_ok_true as T. unfold effect_reads_ok in T.
+  rewrite forallb_forall in T. specialize (T ct H). apply andb_true_iff in T as [T1 T2].
+  rewrite forallb_forall in T1.
+  assert (incl (G.tally_fields ct) (hashed_fields ct ++ G.key_fields ct)) as I.
+  { intros f Hf. specialize (T1 f Hf). apply in_or_app. apply orb_true_iff in T1 as [X | X]; apply mem_In in X; auto. }
+  split; [exact I|]. split.
+  - intros X. apply negb_true_iff in T2. unfold mem in T2.
+    assert (existsb (String.eqb "EventNonce") (G.submit_fields_nogate ct) = true) as Y; [|congruence].
+    apply existsb_exists. exists "EventNonce"%string. split; [exact X | reflexivity].
+  - (* excluded names are neither hashed nor key fields of any claim type: decided on the tables *)
+    intros f Hf Ex. apply I in Hf.
+    assert (forallb (fun ct => forallb (fun f => negb (mem f excluded)) (hashed_fields ct ++ G.key_fields ct)) G.claim_types = true) as D
+      by (vm_compute; reflexivity).
+    rewrite forallb_forall in D. specialize (D ct H). rewrite forallb_forall in D. specialize (D f Hf).
+    apply negb_true_iff in D. unfold mem in D.
+    assert (existsb (String.eqb f) excluded = true) as Y; [|congruence].
+    apply existsb_exists. exists f. split; [exact Ex | apply String.eqb_refl].
+Qed.
